@@ -51,7 +51,7 @@ pub static INFO: PropInfo = PropInfo {
 };
 
 pub fn run(ctx: &Ctx, out: &mut Outcome) {
-    super::run_loop(ctx, out, 1600, 100_000, 20, one_run);
+    super::run_loop(ctx, out, 2400, 100_000, 20, one_run);
 }
 
 const CH_U: u8 = 0;
